@@ -625,6 +625,13 @@ class ArraySim(Engine):
             return
         st.log.add("outcome", step=n, outcome=info.outcome, exc=exc_class(info.exc) if info.exc is not None else None,
                    fired=info.fired, opkind=info.kind)
+        notarr = [r for r in info.results if not isinstance(r, FlodymArray)]
+        if notarr:
+            # an operation documented to return an array handed back something else (None, a bare ndarray)
+            info.results = [r for r in info.results if isinstance(r, FlodymArray)]
+            if oracle is oracle_c13:
+                raise Violation("shape-invariant", f"{info.kind} returned {type(notarr[0]).__name__} instead of an array",
+                                cls="shape-invariant:" + info.kind.split(":")[0], op=info.kind, outcome=info.outcome)
         if info.inplace and info.outcome == "ret":
             st.mutations += 1
         oracle(st, info, snaps)
